@@ -12,6 +12,9 @@ Families
   (ii)  the single-edit neighbourhood of well-formed blocks rendered by C10's generator:
         insert each of 20 characters (incl. 8 non-line-ending separators) at every position, delete every character, duplicate /
         delete / swap every line, truncate at every position
+  (iv)  several blocks per run with one identifier documented twice (first / later, same / other file) and
+        faulty blocks around it, logger working directory in {source dir, parent, unrelated dir, harness root}:
+        every printed location, read relative to the working directory, names the source file and line
   (iii) degenerate blocks (empty, one-line, tokens only, missing identifier, deprecated tag forms,
         duplicate parameters / tags, CR/LF mixes, non-ASCII text, code around the tokens)
 
@@ -168,16 +171,28 @@ def judge(text, o, field_line=None, notes=None, allowed_lines=None):
         elif o.count2 != o.count or len(o.recs2) != len(o.recs):
             P.append(('suppressed-count', 'count %d (%d log calls) with display suppressed, %d (%d) with display' % (
                 o.count2, len(o.recs2), o.count, len(o.recs))))
-    # the displayed text names file:line of each record, in order
-    hdrs = _HDR.findall(o.output)
-    want = [(os.path.basename(r['positions'][0][0]), str(r['positions'][0][1]),
-             'Error' if r['type'] == message.ERROR else 'Warning') for r in o.recs if len(r['positions']) == 1
-            and r['type'] in (message.WARNING, message.ERROR)]
-    got = [(os.path.basename(h[0]), h[1], h[2]) for h in hdrs if not h[0].startswith('<unknown>')]
-    if standalone and got != want and all(len(r['positions']) == 1 for r in o.recs) \
-            and not any(_HDR.search(r['text'] + '\n' + (r['marker_line'] or '')) for r in o.recs):
-        P.append(('display', 'displayed %r, logged %r' % (got[:3], want[:3])))
+    # the displayed text names file:line of each record, in order: the printed path, read relative to the
+    # logger's working directory, is the source file
+    P += judge_display(o.output, o.recs, os.getcwd()) if standalone else []
     return P
+
+
+def judge_display(output, recs, cwd):
+    if not all(len(r['positions']) == 1 for r in recs) or \
+            any(_HDR.search(r['text'] + '\n' + (r['marker_line'] or '')) for r in recs):
+        return []
+    want = [(r['positions'][0][0], r['positions'][0][1], 'Error' if r['type'] == message.ERROR else 'Warning')
+            for r in recs if r['type'] in (message.WARNING, message.ERROR)]
+    got = B.printed_locations(output)
+    if len(got) != len(want):
+        return [('display', '%d diagnostics displayed, %d logged' % (len(got), len(want)))]
+    for (path, line, typ), (fn, wline, wtyp) in zip(got, want):
+        if not B.names_file(path, cwd, fn):
+            return [('display-path', 'printed location %r does not name %r from the working directory %r' % (
+                '%s:%d' % (path, line), fn, cwd))]
+        if line != wline or typ != wtyp:
+            return [('display', 'printed %s:%d %s, logged %s:%d %s' % (path, line, typ, fn, wline, wtyp))]
+    return []
 
 
 # ------------------------------------------------------------------ family (i) ---
@@ -499,6 +514,78 @@ def _work_fields_we(chunk):
     return part.result()
 
 
+# ----------------------------------------------------------------- family (iv) ---
+def display_cases():
+    """Several blocks per run, one identifier documented twice (first / later in the file, same or another
+    file), faulty blocks before / after; logger working directory in {source dir, its parent, an unrelated
+    directory, the harness root}.  -> [(case id, comments, cwd)]"""
+    d, _ = _scratch()
+    src = os.path.join(d, 'src', 'widgets')
+    other = os.path.join(d, 'elsewhere')
+    for x in (src, other):
+        os.makedirs(x, exist_ok=True)
+    F = os.path.join(src, 'demo.c')
+    G = os.path.join(d, 'src', 'util.c')
+
+    def clean(name):
+        return '/**\n * %s:\n * @x: a value\n */' % name
+
+    def faulty(name):
+        return '/**\n * %s: (skip\n * @x: (in) a value\n */' % name
+    scen = {
+        'dup-first': [(clean('dup'), F, 10), (clean('dup'), F, 50), (faulty('bad'), F, 90)],
+        'dup-after-clean': [(clean('ok'), F, 5), (clean('dup'), F, 10), (clean('dup'), F, 50), (faulty('bad'), F, 90)],
+        'dup-after-faulty': [(faulty('bad0'), F, 3), (clean('dup'), F, 10), (clean('dup'), F, 50), (faulty('bad'), F, 90)],
+        'dup-across-files': [(clean('dup'), F, 10), (clean('dup'), G, 20), (faulty('bad'), G, 60), (faulty('bad2'), F, 90)],
+        'dup-across-files-2': [(clean('dup'), G, 10), (clean('dup'), F, 50), (faulty('bad'), F, 90), (faulty('bad2'), G, 120)],
+        'dup-three-times': [(clean('dup'), F, 10), (clean('dup'), F, 50), (clean('dup'), F, 70), (faulty('bad'), F, 90)],
+        'dup-second-faulty': [(clean('dup'), F, 10), (faulty('dup'), F, 50), (clean('ok'), G, 5), (faulty('bad'), G, 30)],
+        'two-dups': [(clean('a'), F, 10), (clean('b'), G, 10), (clean('a'), G, 40), (clean('b'), F, 40), (faulty('bad'), F, 90)],
+        'no-dup': [(faulty('bad'), F, 10), (faulty('bad2'), G, 10)],
+    }
+    out = []
+    for sid in sorted(scen):
+        for cname, cwd in (('srcdir', src), ('parent', os.path.dirname(src)), ('unrelated', other), ('root', ROOT)):
+            out.append(('%s/%s' % (sid, cname), scen[sid], cwd))
+    return out
+
+
+def judge_display_case(comments, cwd):
+    P = []
+    blocks, recs, count, output, exc = B.parse_many(comments, True, cwd=cwd)
+    if exc is not None:
+        return [('raise', 'exception left parse_comment_blocks: %s' % exc)], recs, output
+    spans = [(f, ln, ln + len(B.split_lines(t)) - 1) for t, f, ln in comments]
+    for r in recs:
+        what = '%s %r' % ('Error' if r['type'] == message.ERROR else 'Warning', r['text'][:60])
+        if len(r['positions']) != 1:
+            P.append(('no-position', 'diagnostic without file/line: %s' % what))
+            continue
+        fn, line, col = r['positions'][0]
+        if not any(fn == f and lo <= line <= hi for f, lo, hi in spans):
+            P.append(('line', '%s:%s is not inside any block of the input: %s' % (fn, line, what)))
+    if count != len(recs):
+        P.append(('count', 'get_warning_count()=%d but %d diagnostics were logged' % (count, len(recs))))
+    P += judge_display(output, recs, cwd)
+    _, recs2, count2, _, exc2 = B.parse_many(comments, False, cwd=cwd)
+    if exc2 is not None or count2 != count:
+        P.append(('suppressed-count', 'count %r with display suppressed, %d with display' % (count2, count)))
+    return P, recs, output
+
+
+def _work_display(chunk):
+    part = Part()
+    for cid, comments, cwd in chunk:
+        P, recs, output = judge_display_case(comments, cwd)
+        part.add(states=1, transitions=1, evaluations=2, traces_validated_against_impl=1, distinct_nontrivial=1)
+        part.outcome('disp/%s/%d' % (cid.split('/')[0], len(recs)))
+        for kind, desc in P:
+            part.violation('%s:display/%s' % (kind, cid), desc, {'family': 'display', 'id': cid})
+        if cid.endswith('first/parent'):
+            part.sample({'family': 'display', 'case': cid, 'printed': output[:400]})
+    return part.result()
+
+
 # ----------------------------------------------------- scanner_main --warn-error ---
 class _FakeSourceScanner(object):
     comments = []
@@ -679,6 +766,11 @@ def run(ctx):
     D = list(enumerate(degenerate() + deprecated_shapes())) if not only or 'iii' in only else []
     for r in pmap(_work_texts, rotate([D[i::16] for i in range(16) if D[i::16]], ctx.seed)):
         ctx.merge(r)
+    # (iv) printed locations under different working directories, duplicate identifiers
+    DC = display_cases() if not only or 'iv' in only else []
+    ctx.cov['bounds']['display_cases'] = len(DC)
+    for r in pmap(_work_display, rotate([DC[i::8] for i in range(8) if DC[i::8]], ctx.seed)):
+        ctx.merge(r)
     # warn-error over short field strings
     short = [''.join(t) for n in range(n_we + 1) for t in itertools.product(SIGMA, repeat=n)]
     if only and 'we' not in only:
@@ -706,6 +798,16 @@ def run(ctx):
 
 def replay(ctx, case):
     good_views()
+    if case.get('family') == 'display':
+        cid, comments, cwd = [c for c in display_cases() if c[0] == case['id']][0]
+        P, recs, output = judge_display_case(comments, cwd)
+        print('working directory:', cwd)
+        for t, f, ln in comments:
+            print('%s:%d\n%s' % (f, ln, t))
+        print('displayed:\n' + output)
+        for kind, desc in P:
+            print('%s: %s' % (kind, desc))
+        return not P
     if case.get('family') == 'field':
         text, fl = build_field(case['S'], case['pos'], case['placement'])
     else:
